@@ -263,7 +263,7 @@ def _register_jump():
             ctx.prove("post.decoded_jump_kind", z3.BoolVal(isinstance(r, Jump) and r.relative is relative))
             ctx.prove("post.cpython_lands_on_the_first_unit_of_the_target_block", Z(r.target) == 2 * tgt_off.z)
             ctx.prove("post.operand_non_negative", Z(new_arg) >= 0)
-        harness("blocks.jump_update.decodes_to_target[%s]" % ("relative" if relative else "absolute"), props=["C03", "C01"],
+        harness("blocks.jump_update.decodes_to_target[%s]" % ("relative" if relative else "absolute"), props=["C03", "C01", "C05", "C06"],
                 functions=["code_data._blocks.blocks_to_bytes", "code_data._blocks.to_arg"], configs="all",
                 notes="fragment of the fix-point loop: with the offsets of the current layout, the operand written for a jump makes CPython (to_arg's proved reading) land on the first "
                       "code unit of the target block, for both kinds and both scalings")(h)
@@ -285,7 +285,7 @@ def _register_jump():
         else:
             differs = z3.BoolVal(True) if not isinstance(n, SymInt) else (n.z != need)
             ctx.prove("flag.set_when_this_jump_changed_size_and_never_cleared", z3.BoolVal(bool(out)) == z3.Or(z3.BoolVal(prior), differs) if isinstance(out, bool) else z3.BoolVal(False))
-    harness("blocks.jump_update.change_flag_is_sticky", props=["C03"], functions=["code_data._blocks.blocks_to_bytes"], configs="any",
+    harness("blocks.jump_update.change_flag_is_sticky", props=["C03", "C05", "C06"], functions=["code_data._blocks.blocks_to_bytes"], configs="any",
             notes="the relaxation flag is set iff this jump's size differs from the layout's and is never cleared by a later jump (otherwise the loop stops before offsets converge)")(h_flag)
 
 
